@@ -65,6 +65,14 @@ func grammarCase0(ctx *Ctx, i int, prec bool) (*wl.Spec, string) {
 		}
 		return fx[r.Intn(len(fx))], "fx"
 	}
+	if i%40 == 13 {
+		// any printable literal, a long (sometimes low-numbered) rule, two-digit rule numbers
+		return wideSpec(r.Sub("wide")), "wide"
+	}
+	if i%40 == 7 {
+		// more than 64 table columns
+		return wl.BigCFG(r.Sub("big")), "big"
+	}
 	p := wl.CFGParams{MaxNT: 5, MaxT: 5, MaxExtra: 6, MaxRhs: 4, Literals: true, Prec: prec && r.Chance(1, 2)}
 	if r.Chance(1, 5) {
 		p = wl.CFGParams{MaxNT: 7, MaxT: 6, MaxExtra: 10, MaxRhs: 5, Literals: true, Prec: prec && r.Chance(1, 2)}
